@@ -98,7 +98,10 @@ func (fn *TrieTree) Set(k string, field unsafe.Pointer) bool {
 		c := *(*byte)(rt.IndexPtr(ks, byteTypeSize, i))
 		j := ascii2Int(c)
 		if int(j) >= len(fs) {
-			tmp := make([]TrieNode, j+1)
+			// keep one spare zeroed node behind the slice: the native twin of Get (trie_get in native/map.c)
+			// tests `j > len` instead of `j >= len` and reads Index[len]; the spare node makes that read
+			// land on an empty node (Leaves == nil, i.e. not found) instead of on foreign memory
+			tmp := make([]TrieNode, int(j)+1, int(j)+2)
 			copy(tmp, fs)
 			fs = tmp
 			fp.Index = tmp
